@@ -86,6 +86,10 @@ def run_cfg(ctx, fx):
     # out running instances only, already_running reports the entry's running()
     from props import c08 as _c08
     _c08.shared_subset(ctx, fx, fx.cfg, "R14.6", r"^(from_registry_and_spawn@%s:(inserted-is-spawned|reuse-only-if-running|order)|try_from_registry@%s|already_running@%s|register@%s)$" % ((re.escape(fx.cfg),) * 4), 4)
+    # R14.7 (shared with C08) "register-if-stopped reacts to a termination nobody awaited": whether a registration is refused is
+    # decided in one place, under the registry lock, on the entry's liveness — every other way to register (the builder's
+    # `register()`) forwards to it on every path and neither refuses nor succeeds of its own
+    core.shared_from(ctx, _c08.check_cfg, fx, fx.cfg, "R14.7", ("R08.7",), r"^(still-running-decided-under-lock|register-forwarder)", 2, "registration decided in one place")
 
 
 def check_announcers(ctx, fx, RULE="R14.5"):
